@@ -183,7 +183,7 @@ func runC17(c *core.Ctx) {
 				t = f.Type()
 			}
 			embedPrefix = strings.Join(parts, ".")
-			fn = p.SSA.FuncValue(obj)
+			fn = p.FuncOf(obj)
 			if fn == nil || fn.Blocks == nil {
 				return nil, true, nil, embedPrefix // interface method promoted from embedded net.Conn
 			}
@@ -610,7 +610,19 @@ func ctorArgsOK(fn *ssa.Function, alloc *ssa.Alloc, hasR, hasW bool) (bool, stri
 			return
 		}
 		f, base := core.FieldOf(st.Addr)
-		if f == nil || core.Unwrap(base) != ssa.Value(alloc) {
+		if f == nil {
+			return
+		}
+		// fields of embedded (by value) structs belong to the same literal
+		root := core.Unwrap(base)
+		for d := 0; d < 4; d++ {
+			fa, ok := root.(*ssa.FieldAddr)
+			if !ok {
+				break
+			}
+			root = core.Unwrap(fa.X)
+		}
+		if root != ssa.Value(alloc) {
 			return
 		}
 		if core.NamedIs(f.Type(), "net", "Conn") {
